@@ -1,11 +1,11 @@
 SPECIFICATION Spec
 CONSTANTS KnownDevs = {}
 INVARIANTS
+  InEnvelope
   C13_ReportForwardedWhenDue
   C13_NoneForUnknownOrSilentSessions
   C13_AtMostOncePerInterval
   C13_ReportRequestShape
-  InEnvelope
 POSTCONDITION TraceAccepted
 ALIAS Alias
 CHECK_DEADLOCK FALSE
